@@ -207,6 +207,14 @@ def cases(ctx):
                 if found:
                     ctx.hit("identification_hex_from_two_digit_alphabet", min(len(found), 120))
             i += 1
+    # every period-2 identification (ABABABAB, 37 x 37)
+    for c1 in LEGAL:
+        if ctx.mine(i):
+            for c2 in LEGAL:
+                c = {"cs": (c1 + c2) * 4, "tc": rng.randrange(1, 5), "cat": rng.randrange(8), "df": rng.choice((17, 18)), "pos": rng.randrange(8), "ch2": rng.choice(LEGAL)}
+                yield "adsb", c
+                yield "bds20", dict(c, df=rng.choice((20, 21)))
+        i += 1
     for carrier in ("bds20", "adsb"):
         if ctx.mine(i):
             yield "volume", {"carrier": carrier, "n": 70000, "vseed": ctx.seed * 77 + i}
